@@ -18,6 +18,7 @@ pub fn exec3(prop: &str, op: &str, line: &str, args: &[SExp]) -> Option<CaseResu
         "transport" => op_transport(line, args),
         "build" => op_build(prop, line, args),
         "order" => op_order(line, args),
+        "manyreq" => op_manyreq(line, args),
         _ => return crate::exec4::exec4(prop, op, line, args),
     })
 }
@@ -338,6 +339,29 @@ fn op_build(_prop: &str, line: &str, args: &[SExp]) -> CaseResult {
     }
 }
 
+/// `manyreq N`: N requests created one after the other in this process, through the raw constructor and through
+/// builders; every one must have a positive request-id (the property says so for every request, not for the first)
+fn op_manyreq(line: &str, args: &[SExp]) -> CaseResult {
+    let n = match args.first().and_then(|a| a.atom()).and_then(|s| s.parse::<usize>().ok()) {
+        Some(n) => n,
+        None => return badarg(line, "manyreq"),
+    };
+    let uri: Uri = "ipp://printer.local:631/ipp/print".parse().unwrap();
+    let mut bad: Option<(usize, u32)> = None;
+    for i in 0..n {
+        let id = match i % 3 {
+            0 => IppRequestResponse::new(IppVersion::v1_1(), Operation::GetPrinterAttributes, Some(uri.clone())).header().request_id,
+            1 => ipp::operation::IppOperation::into_ipp_request(IppOperationBuilder::get_jobs(uri.clone()).build()).header().request_id,
+            _ => ipp::operation::IppOperation::into_ipp_request(IppOperationBuilder::cancel_job(uri.clone(), 7).build()).header().request_id,
+        };
+        if id == 0 && bad.is_none() {
+            bad = Some((i, id));
+        }
+    }
+    let oracle = bad.map(|(i, id)| format!("request #{} created by this process has request-id {} (not positive)", i + 1, id));
+    CaseResult { line: line.into(), result: "all-positive".into(), oracle, class: "manyreq".into() }
+}
+
 /// `order KIND URI JOBID PAYLOAD (calls …) (adds (op TAG NAME VALUE)…)`: the bytes up to the end of the RFC 8011 header attributes
 fn op_order(line: &str, args: &[SExp]) -> CaseResult {
     let n = args.len();
@@ -364,7 +388,14 @@ fn op_order(line: &str, args: &[SExp]) -> CaseResult {
         };
         req.attributes_mut().add(t, IppAttribute::new(&nm, v));
     }
-    let bytes = req.to_bytes();
+    let bytes = {
+        let mut b = req.to_bytes().to_vec();
+        // any positive request-id is as good as another (shown as 1)
+        if kind != "new_response" && b.len() >= 8 && b[4..8] != [0, 0, 0, 0] {
+            b[4..8].copy_from_slice(&[0, 0, 0, 1]);
+        }
+        b
+    };
     let mut oracle = order_oracle(&bytes, req.attributes());
     if oracle.is_none() {
         // a request built for a target has its operation target attributes present by construction: printer-uri
@@ -502,7 +533,11 @@ fn make_request(line: &str, args: &[SExp]) -> Result<Made, CaseResult> {
 }
 
 fn finish_build(eff: String, req: IppRequestResponse, kind: String, payload: Vec<u8>) -> CaseResult {
-    let (c, badkey) = unbuild(req.header(), req.attributes(), false);
+    let (mut c, badkey) = unbuild(req.header(), req.attributes(), false);
+    // the property asks for a positive request-id, not for a particular one: every positive id is shown as 1
+    if kind != "new_response" && c.id > 0 {
+        c.id = 1;
+    }
     // C09 oracle on the real bytes of this instance: order of the first attributes of the first group
     let mut oracle = order_oracle(&req.to_bytes(), req.attributes());
     if badkey {
